@@ -6637,13 +6637,13 @@ def handle_task_read_for_pid(parser, events):
 
 def handle_sys_preadv(parser, events, no_cancel=False):
     args = events[0].values
-    return BscSysPreadv(events, args[0], args[1], args[2], ctypes.c_int64(args[0]).value,
+    return BscSysPreadv(events, args[0], args[1], args[2], ctypes.c_int64(args[3]).value,
                         serialize_result(events[-1], 'count'), no_cancel)
 
 
 def handle_sys_pwritev(parser, events, no_cancel=False):
     args = events[0].values
-    return BscSysPwritev(events, args[0], args[1], args[2], ctypes.c_int64(args[0]).value,
+    return BscSysPwritev(events, args[0], args[1], args[2], ctypes.c_int64(args[3]).value,
                          serialize_result(events[-1], 'count'), no_cancel)
 
 
